@@ -195,3 +195,9 @@ Definition bcall_pair (b : bcall) : bytes * bytes :=
   | BVal key v => (key, enc_tval v)
   | BRaw key v => (key, v)
   end.
+
+(* every byte of the record is a byte (the model's bytes are N): a model-level side condition, needed
+   only where base64 text is involved *)
+Definition pair_bytes_ok (kv : bytes * bytes) : Prop := bytes_ok (fst kv) /\ bytes_ok (snd kv).
+Definition rec_bytes_ok (r : record) : Prop := bytes_ok (sig r) /\ Forall pair_bytes_ok (content r).
+Definition SignerBytes (sg : signer) : Prop := forall m s, sg m = Some s -> bytes_ok s.
